@@ -66,7 +66,18 @@ def gen_scale(rng: random.Random, tier: str) -> dict:
     s = float(np.std(x)) or 1.0
     m = float(np.mean(x))
     xn = [m + s * rng.gauss(0, 2) for _ in xn]
-    return {"fn": fn, "flags": flags, "x": x, "xnew": xn, "dec": dec, "off": off, "path": rng.choice(["mm", "mm", "direct", "direct", "mm_quoted"])}
+    # how the vector is held: float array, integer array (whole numbers), one-column scipy sparse matrix, pandas Series
+    inp = rng.choice(["array", "array", "int", "sparse", "series"])
+    if inp == "int":
+        xi, xni = [float(round(v)) for v in x], [float(round(v)) for v in xn]
+        if len(set(xi)) >= 3 and max(abs(v) for v in xi) < 2 ** 52:
+            x, xn = xi, xni
+        else:
+            inp = "array"
+    path = rng.choice(["mm", "mm", "direct", "direct", "mm_quoted"])
+    if inp == "sparse" and path == "mm_quoted":
+        path = "mm"
+    return {"fn": fn, "flags": flags, "x": x, "xnew": xn, "dec": dec, "off": off, "path": path, "input": inp}
 
 
 def call_text(fn, flags, var="x"):
@@ -82,10 +93,27 @@ def run_transform(case, expr):
 
     x = np.array(case["x"], float)
     xn = np.array(case["xnew"], float)
+    inp = case.get("input", "array")
+
+    def held(v):
+        import scipy.sparse as sp
+
+        if inp == "int":
+            return v.astype("int64")
+        if inp == "sparse":
+            return sp.csc_matrix(v.reshape(-1, 1))
+        if inp == "series":
+            return pd.Series(v)
+        return v
+
     if case["path"] == "mm":
         with quiet():
-            mm = model_matrix("0 + " + expr, pd.DataFrame({"x": x}), na_action="ignore", context={})
-            rp = mm.model_spec.get_model_matrix(pd.DataFrame({"x": xn}))
+            if inp == "sparse":  # a sparse column can only reach a formula through the context
+                mm = model_matrix("0 + " + expr.replace("(x", "(m", 1), pd.DataFrame({"x": x}), na_action="ignore", context={"m": held(x)})
+                rp = mm.model_spec.get_model_matrix(pd.DataFrame({"x": xn}), context={"m": held(xn)})
+            else:
+                mm = model_matrix("0 + " + expr, pd.DataFrame({"x": held(x)}), na_action="ignore", context={})
+                rp = mm.model_spec.get_model_matrix(pd.DataFrame({"x": held(xn)}))
         return dense(mm), dense(rp)
     if case["path"] == "mm_quoted":
         # the column can only be named in backticks, next to another quoted column and a plain column whose names all
@@ -106,8 +134,8 @@ def run_transform(case, expr):
         a = fn(x, case["degree"], raw=case["raw"], _state=state)
         b = fn(xn, case["degree"], raw=case["raw"], _state=state)
     else:
-        a = fn(x, **kw, _state=state)
-        b = fn(xn, **kw, _state=state)
+        a = fn(held(x), **kw, _state=state)
+        b = fn(held(xn), **kw, _state=state)
     a = np.asarray(getattr(a, "__wrapped__", a), float)
     b = np.asarray(getattr(b, "__wrapped__", b), float)
     return a.reshape(len(x), -1), b.reshape(len(xn), -1)
@@ -119,7 +147,7 @@ def judge_scale(case) -> Outcome:
     xn = np.array(case["xnew"], float)
     n = len(x)
     fn, flags = case["fn"], case["flags"]
-    out.sig = (fn, tuple(sorted((k, str(v)) for k, v in flags.items())), n, case["dec"], case["off"], case["path"])
+    out.sig = (fn, tuple(sorted((k, str(v)) for k, v in flags.items())), n, case["dec"], case["off"], case["path"], case.get("input", "array"))
     sd = float(np.std(x))
     kappa = float(np.max(np.abs(x)) / sd) if sd > 0 else float("inf")
     if not math.isfinite(kappa) or kappa > 1e6:
